@@ -13,6 +13,16 @@ import (
 	"time"
 )
 
+// bigRead: the run made the client allocate a large packet buffer.
+func bigRead(res *Result) bool {
+	for i := len(res.Trace) - 1; i >= 0 && i > len(res.Trace)-12; i-- {
+		if res.Trace[i].Kind == "connstat" && res.Trace[i].N > 1<<20 {
+			return true
+		}
+	}
+	return false
+}
+
 func nontrivial(sc *Scenario, res *Result) bool {
 	fired := 0
 	for _, n := range res.Fired {
@@ -168,7 +178,7 @@ func TestWorker(t *testing.T) {
 			if len(sum.Samples) < 2 && nontrivial(sc, res) && len(spec.Only) == 0 {
 				sum.Samples = append(sum.Samples, sc)
 			}
-			if n%20 == 19 {
+			if n%20 == 19 || bigRead(res) {
 				runtime.GC()
 			}
 		}
